@@ -108,7 +108,7 @@ func c02RunBatch(m *vk.M, b int, racing bool) {
 	if r.Intn(2) == 0 {
 		bc.BytesBy, bc.CfgBytes = "config", bc.MaxBytes
 	} else {
-		bc.BytesBy, bc.CfgBytes, bytesOpt = "route", []int64{0, bc.MaxBytes + 5000}[r.Intn(2)], bc.MaxBytes
+		bc.BytesBy, bc.CfgBytes, bytesOpt = "route", []int64{0, -1, bc.MaxBytes + 5000}[r.Intn(3)], bc.MaxBytes
 	}
 	cfg := Config{Timeout: bc.CfgMs, MaxConns: bc.MaxConns, MaxBytes: bc.CfgBytes}
 	groups := []c02Group{
@@ -118,6 +118,7 @@ func c02RunBatch(m *vk.M, b int, racing bool) {
 		{Class: "gauge", Method: http.MethodGet, N: 2, Timeout: fastOpt},
 		{Class: "bytes", Method: http.MethodPost, N: 1, Timeout: fastOpt, MaxBytes: bytesOpt},
 		{Class: "pv", Method: http.MethodGet, N: c02PanicAlphabetRoutes, Timeout: fastOpt},
+		{Class: "bytescfg", Method: http.MethodPost, N: 1, Timeout: fastOpt}, // no WithMaxBytes: Config.MaxBytes (zero / negative = none) applies
 	}
 	var descMu sync.Mutex
 	desc := func(extra string) string {
@@ -232,6 +233,13 @@ func c02RunBatch(m *vk.M, b int, racing bool) {
 			}
 		}
 		c02ScMaxBytes(c, e, do, rt, mb+1+r.Intn(100), true, r)
+		// the route without its own limit: governed by Config.MaxBytes alone
+		rc := e.routes["bytescfg"][0]
+		for _, l := range []int{0, int(rc.MaxBytes), int(rc.MaxBytes) + 1, mb + 6000 + r.Intn(3000)} {
+			if !c02ScMaxBytes(c, e, do, rc, l, false, r) && m.ViolCount() > 0 {
+				return
+			}
+		}
 	})
 	if racing {
 		// concurrency below/at the limit (nothing may be rejected) and above it
